@@ -38,6 +38,8 @@ type c20Getter struct {
 	busy       bool
 	errKind    int // which error the failures carry (see c20Failure); errMixed: a different kind each attempt
 	errMixed   bool
+	horizon    time.Duration // an attempt starting later than this (simulated) is a runaway: Get does not give up
+	runaway    bool
 	retryAfter int  // seconds named in the Retry-After header of failure kind 6
 	latFirst   bool // only the first attempt is slow (a connection that times out once), later ones answer at once
 }
@@ -68,6 +70,9 @@ func c20Failure(kind, idx int, u string) error {
 
 var errC20Busy = errors.New("c20: busy loop detected, run aborted")
 
+// errC20Runaway: an attempt started long after anything the settings allow — Get is not going to give up.
+var errC20Runaway = errors.New("c20: still retrying far beyond the timeout, run aborted")
+
 func (g *c20Getter) Get(u string) (map[string][]string, []byte, error) {
 	url := u
 	st := time.Since(g.t0)
@@ -80,6 +85,10 @@ func (g *c20Getter) Get(u string) (map[string][]string, []byte, error) {
 		}
 	} else {
 		g.sameInst = 0
+	}
+	if g.horizon > 0 && st > g.horizon {
+		g.runaway = true
+		panic(errC20Runaway)
 	}
 	if g.latency > 0 && (!g.latFirst || len(g.attempts) == 0) {
 		time.Sleep(g.latency)
@@ -118,6 +127,7 @@ type c20Result struct {
 	err     error
 	elapsed time.Duration
 	aborted bool
+	runaway bool
 	panicV  string
 }
 
@@ -136,6 +146,10 @@ func c20Bubble(tb *testing.T, timeout, maxDelay time.Duration, g *c20Getter, sha
 				if p := recover(); p != nil {
 					if e, ok := p.(error); ok && errors.Is(e, errC20Busy) {
 						res.aborted = true
+						return
+					}
+					if e, ok := p.(error); ok && errors.Is(e, errC20Runaway) {
+						res.runaway = true
 						return
 					}
 					res.panicV = fmt.Sprint(p)
@@ -256,9 +270,9 @@ func c20Run(r *core.Run) {
 			}
 			// keep the enumeration shape identical under Focus: we need to know when to stop,
 			// which depends on outcomes, so execute silently without judging.
-			g := &c20Getter{failFirst: ff, latency: lat, hdr: hdr, body: body, url: url, errKind: errKind, errMixed: errMixed, latFirst: latFirst, retryAfter: retryAfter}
+			g := &c20Getter{failFirst: ff, latency: lat, hdr: hdr, body: body, url: url, errKind: errKind, errMixed: errMixed, latFirst: latFirst, retryAfter: retryAfter, horizon: 4*bound + time.Hour}
 			res := c20Bubble(r.TB, timeout, maxDelay, g, long)
-			if res.aborted || res.err != nil {
+			if res.aborted || res.runaway || res.err != nil {
 				gaveUp++
 			}
 			continue
@@ -268,7 +282,7 @@ func c20Run(r *core.Run) {
 		if emptyBody {
 			body = []byte{} // a successful response may have an empty body: it is a success all the same
 		}
-		g := &c20Getter{failFirst: ff, latency: lat, hdr: hdr, body: body, url: url, errKind: errKind, errMixed: errMixed, latFirst: latFirst, retryAfter: retryAfter}
+		g := &c20Getter{failFirst: ff, latency: lat, hdr: hdr, body: body, url: url, errKind: errKind, errMixed: errMixed, latFirst: latFirst, retryAfter: retryAfter, horizon: 4*bound + time.Hour}
 		res := c20Bubble(r.TB, timeout, maxDelay, g, long)
 		r.Eval()
 		r.SimTime += res.elapsed
@@ -296,6 +310,15 @@ func c20Run(r *core.Run) {
 
 		if res.panicV != "" {
 			r.Violate("C20:panic:"+cls, "%s: RetryHTTPSGetter.Get panicked: %s", name, res.panicV)
+		}
+		if res.runaway {
+			r.Violate("C20:never-gives-up", "%s: attempt %d started at simulated %v, long after Timeout %v + MaxRetryDelay %v + latency %v: Get keeps retrying instead of returning an error (aborted by the simulator)", name, nAtt+1, g.horizon, timeout, maxDelay, lat)
+			gaveUp++
+			r.EndItem()
+			if ff < 0 {
+				break
+			}
+			continue
 		}
 		if res.aborted {
 			r.Probe("busy_loop_detected")
